@@ -807,6 +807,7 @@ pub fn run_search<P: Property>(prop: Arc<P>, tier: Tier) -> i32 {
         }
         return 2;
     }
+    crate::eval::dump_unspec_survey();
     let _ = writeln!(
         so,
         "OK property={} tier={} seed={} cases={} enumerated={} inner={} nontrivial={} wall={:.1}s",
